@@ -251,8 +251,12 @@ func examineSnaps(
 				obsoleteTests = append(obsoleteTests, testID)
 				hasDiffs = true
 
-				removeSnapshot(s)
-				continue
+				// only drop the obsolete snapshot when we are allowed to remove it,
+				// otherwise a sort-only rewrite would silently delete it.
+				if update {
+					removeSnapshot(s)
+					continue
+				}
 			}
 
 			for s.Scan() {
